@@ -9,6 +9,7 @@ import (
 	"math/big"
 	"os"
 	"strconv"
+	"time"
 
 	sentinel "github.com/alibaba/sentinel-golang/api"
 	"github.com/alibaba/sentinel-golang/core/hotspot"
@@ -87,6 +88,12 @@ func genCase(r *rng.R, id int) kit.Case {
 		c.Ops = []kit.Op{{Kind: "enter", Req: &kit.Req{Args: []int{5}, Batch: 1}}, {Kind: "tick", Ms: 1025},
 			{Kind: "enter", Req: &kit.Req{Args: []int{5}, Batch: 1}}}
 		return c
+	}
+	switch id % 10 {
+	case 8:
+		return genTrickleSpike(r, id)
+	case 9:
+		return genIdleBurst(r, id)
 	}
 	nvals := 1 + r.Intn(4)
 	vals := pickVals(r, nvals)
@@ -181,6 +188,89 @@ func genCase(r *rng.R, id int) kit.Case {
 			q.Batch = uint32(r.Range(0, 6))
 		}
 		c.Ops = append(c.Ops, kit.Op{Kind: "enter", Res: res, Req: q})
+	}
+	return c
+}
+
+func enterOp(v int, batch uint32) kit.Op {
+	return kit.Op{Kind: "enter", Req: &kit.Req{Args: []int{v}, Batch: batch}}
+}
+
+// genTrickleSpike: reject mode, slow steady traffic on one value for several durations - one
+// request per (duration+1 .. duration*(T+burst)/T) ms, so that every request refills a bucket
+// that still holds unspent tokens while the refill alone stays within the capacity - followed by
+// a spike of more than 2*(T+burst) requests inside a few milliseconds. A second value is
+// interleaved now and then. The bucket must stay capped at T+burst whatever was left unspent.
+func genTrickleSpike(r *rng.R, id int) kit.Case {
+	c := kit.Case{ID: id, Adv: r.Bool()}
+	ru := kit.Rule{Metric: 1, Behavior: 0, Thr: r.PickI(2, 3, 5, 10, 20), Burst: r.PickI(0, 0, 1, 5),
+		Dur: r.PickI(1, 1, 2), Cap: r.PickI(0, 0, 3)}
+	vals := pickVals(r, 2)
+	if r.Chance(1, 3) {
+		ru.Spec = [][2]int64{{int64(vals[0]), r.PickI(2, 4, 7)}}
+	}
+	c.Rules = [][]kit.Rule{{ru}}
+	v, other := vals[0], vals[1]
+	T := ru.ThresholdFor(kit.KeyID(v))
+	M := T + ru.Burst
+	dms := ru.Dur * 1000
+	hi := dms * M / T // elapsed time whose refill alone reaches the capacity
+	n := 3 + r.Intn(8)
+	for i := 0; i < n; i++ {
+		c.Ops = append(c.Ops, enterOp(v, 1))
+		gap := dms + 1
+		if hi > gap && r.Chance(2, 3) {
+			gap = r.Range(dms+1, hi)
+		}
+		if r.Chance(1, 4) {
+			c.Ops = append(c.Ops, enterOp(other, uint32(r.PickI(1, 1, 2))))
+		}
+		c.Ops = append(c.Ops, kit.Op{Kind: "tick", Ms: gap})
+	}
+	spike := int(2*M) + 2 + r.Intn(int(M)+1)
+	for i := 0; i < spike; i++ {
+		c.Ops = append(c.Ops, enterOp(v, 1))
+		if r.Chance(1, 6) {
+			c.Ops = append(c.Ops, kit.Op{Kind: "tick", Ms: r.PickI(0, 1, 2)})
+		}
+	}
+	return c
+}
+
+// genIdleBurst: throttling mode with a spacing of tens to hundreds of ms: a run of close
+// requests on one value (they queue), an idle gap of at least two spacings (often many), then
+// requests closer together than the spacing - repeated. Idle time must not be banked: after the
+// gap the first request passes at once and the following ones queue behind it again.
+func genIdleBurst(r *rng.R, id int) kit.Case {
+	c := kit.Case{ID: id, Adv: r.Bool()}
+	ru := kit.Rule{Metric: 1, Behavior: 1, Thr: r.PickI(2, 4, 5, 10, 20, 40), Dur: r.PickI(1, 1, 2),
+		MaxQ: r.PickI(0, 150, 300, 1000, 5000), Cap: r.PickI(0, 0, 3)}
+	if r.Chance(1, 4) {
+		ru.Key, ru.Idx = 1, 0
+	}
+	vals := pickVals(r, 2)
+	c.Rules = [][]kit.Rule{{ru}}
+	v, other := vals[0], vals[1]
+	ivl := ru.Dur * 1000 / ru.Thr
+	req := func(x int) kit.Op {
+		if ru.Key != 0 {
+			return kit.Op{Kind: "enter", Req: &kit.Req{Atts: [][2]int{{ru.Key, x}}, Batch: 1}}
+		}
+		return enterOp(x, 1)
+	}
+	rounds := 2 + r.Intn(3)
+	for k := 0; k < rounds; k++ {
+		n := 2 + r.Intn(5)
+		for i := 0; i < n; i++ {
+			c.Ops = append(c.Ops, req(v))
+			if r.Chance(1, 3) {
+				c.Ops = append(c.Ops, kit.Op{Kind: "tick", Ms: r.PickI(0, 1, ivl/3, ivl-1)})
+			}
+			if r.Chance(1, 6) {
+				c.Ops = append(c.Ops, req(other))
+			}
+		}
+		c.Ops = append(c.Ops, kit.Op{Kind: "tick", Ms: r.PickI(2*ivl, 2*ivl+1, 3*ivl, 5*ivl+7, 15*ivl, 40*ivl) + int64(n)*ivl})
 	}
 	return c
 }
@@ -448,6 +538,7 @@ func independence(c kit.Case, obs []kit.Obs, ri, k, until int, rep *emit.Report)
 		}
 		clk.SetMs(uint64(obs[i].AtMs))
 		clk.TakeSleeps()
+		kit.Beat()
 		e, b := sentinel.Entry(res, kit.Options(*o.Req)...)
 		var sl []int64
 		for _, d := range clk.TakeSleeps() {
@@ -479,7 +570,7 @@ func main() {
 	clk.Install()
 	root := rng.New(a.Seed)
 	rep := emit.NewReport("C05", a.Seed, a.Tier)
-	rep.Rule = "1-2 resources x 1-2 hotspot QPS rules (reject / throttling; thresholds 0..3000 and 9e15, bursts, durations 1-5 s, max queueing 0-5000 ms, ParamIndex 0/1/-1/-2/3, ParamKey, ParamsMaxCapacity 0(default)/1-4, specific items incl. 0 and negative), 18-47 entries over 1-4 values of kinds int/int64/int32/uint8/string/bool/float64/float32/struct (plus nil, -0.0, NaN) with clock ticks at 0, +-1 around the spacing and the duration, idle gaps of several durations; batches 0,1,2,3,T,T+1,M,M+1,2^32-1; sleeps advancing the clock or not. Non-trivial = at least one admission and one rejection, or at least one requested wait; distinct by full input."
+	rep.Rule = "1-2 resources x 1-2 hotspot QPS rules (reject / throttling; thresholds 0..3000 and 9e15, bursts, durations 1-5 s, max queueing 0-5000 ms, ParamIndex 0/1/-1/-2/3, ParamKey, ParamsMaxCapacity 0(default)/1-4, specific items incl. 0 and negative), 18-47 entries over 1-4 values of kinds int/int64/int32/uint8/string/bool/float64/float32/struct (plus nil, -0.0, NaN) with clock ticks at 0, +-1 around the spacing and the duration, idle gaps of several durations; batches 0,1,2,3,T,T+1,M,M+1,2^32-1; sleeps advancing the clock or not. One case in ten is a reject-mode trickle (one request per duration+1 .. duration*(T+burst)/T ms for 3-10 durations) followed by a spike of more than 2*(T+burst) requests within a few ms; one in ten is a throttling-mode history of queued runs separated by idle gaps of 2-40 spacings. Non-trivial = at least one admission and one rejection, or at least one requested wait; distinct by full input."
 	nCorr := a.Pick(a.N, 230, 6000)
 	nMon := a.Pick(a.Mon, 3000, 60000)
 	if a.Search {
@@ -496,8 +587,31 @@ func main() {
 		sh.Add(0, fmt.Sprintf("HK %d %d %d", hotspot.ConcurrencyMaxCount, hotspot.ParamsCapacityBase, hotspot.ParamsMaxCapacity))
 	}
 	dist := emit.NewDistinct()
+	var cur kit.Case
+	kit.StartWatchdog(10*time.Second, func() {
+		// an Entry call has not returned: the retry loop of PerformChecking makes no progress
+		rep.Fail(cur.ID, "C05_lockstep", "perform-checking-does-not-return",
+			"an Entry call of this case did not return within 10 s of real time (retry loop of PerformChecking without progress)", cur)
+		if a.Only >= 0 {
+			for _, f := range rep.MonitorFailures {
+				fmt.Printf("MONITOR-FAIL clause=%s signature=%s %s\n", f.Clause, f.Signature, f.Detail)
+			}
+			os.Exit(0)
+		}
+		rep.DistinctNontrivial = dist.N()
+		if sh != nil {
+			rep.Shards = sh.Close()
+		}
+		if err := rep.Write(a.Out); err != nil {
+			fmt.Fprintln(os.Stderr, err)
+			os.Exit(2)
+		}
+		os.Exit(0)
+	})
 	runOne := func(id int, corr bool) {
 		c := genCase(root.Fork(uint64(id)), id)
+		cur = c
+		kit.Beat()
 		clk.SetMs(clk0)
 		obs, finals, _ := kit.Run("c05", c, clk)
 		rep.Evaluations++
